@@ -1,23 +1,37 @@
 package main
 
 import (
+	"github.com/zenon-network/go-zenon/vm/constants"
 	"fmt"
 	"os"
 
 	"verifmc/internal/ops"
 	"verifmc/internal/vnode"
-	_ "verifmc/props/c04"
+	"verifmc/internal/xs"
+	_ "verifmc/props/c11"
 )
 
 func main() {
 	dir, _ := os.MkdirTemp("/dev/shm", "scratch")
 	defer os.RemoveAll(dir)
+	// configure as c11 does
+	chk := xs.Lookup("C11")
+	_ = chk
+	vnode.SmallConsensus(2)
+	constants.MomentumsPerEpoch = 6
+	constants.RewardTimeLimit = 10
+	constants.UpdateMinNumMomentums = 2
+	constants.PillarEpochLockTime = 20
+	constants.PillarEpochRevokeTime = 1 << 40
 	n := vnode.New(vnode.Options{Dir: dir + "/n"})
 	M := ops.Op{K: "M"}
-	for _, o := range []ops.Op{{K: "Call", S: "stake", A: 1, V: 10}, M, {K: "Call", S: "stake", A: 2, V: 20}, {K: "Reorg"}, M, M} {
+	seq := []ops.Op{M, M, {K: "RevokeP3"}, M, M, {K: "M3"}, M, M, {K: "Q"}, {K: "M3"}, {K: "M3"}}
+	for _, o := range seq {
 		fmt.Println(o, "->", ops.Apply(n, o), "height", n.Height())
-		for _, b := range n.PoolBlocks() {
-			fmt.Printf("   pool: type=%d addr=%v h=%d from=%v ack=%d\n", b.BlockType, b.Address.String()[:12], b.Height, b.FromBlockHash.String()[:8], b.MomentumAcknowledged.Height)
-		}
 	}
+	f := vnode.New(vnode.Options{Dir: dir + "/f", NoPillars: true})
+	_, err, pan := f.InsertChain(vnode.CloneBatch(n.Range(2, n.Height())))
+	fmt.Println("follower:", err, pan, f.FullDigest() == n.FullDigest())
+	fmt.Println(n.ConsensusDigest(0))
+	fmt.Println(f.ConsensusDigest(0))
 }
